@@ -119,6 +119,18 @@ theorem C18_unit_index_insertion_order_irrelevant (base : Env) (pqOf : Nat → O
     rw [h k]
   rw [this]
 
+/-- the environment the differential runs use for the bundled converter (`realEnv … 1` in Driver/Syntax.lean
+    sets `findUnit := bundledFindUnit`) reads its units through exactly such an index: `bundledFindUnit` is
+    `idxGet` on the generated key table, so `C18_unit_index_order_irrelevant` speaks about the modelled
+    converter (for any enumeration of that table with unique keys) -/
+theorem C18_bundled_find_unit_is_index_lookup (base : Env) :
+    ({ base with findUnit := bundledFindUnit } : Env) = envWithIndex base unitKeyTable some := by
+  unfold envWithIndex
+  congr 1
+  funext k
+  rw [det_bundledFindUnit_eq]
+  cases Bld.idxGet unitKeyTable k <;> rfl
+
 /-- the same for a case-folding table given as an association list with unique keys -/
 theorem C18_fold_table_order_irrelevant (base : Env) (tbl tbl' : List (Char × List Char)) (hp : tbl.Perm tbl')
     (hu : (tbl.map (·.1)).Nodup) (input : Str) :
